@@ -115,6 +115,11 @@ func allocShapes(x *Ctx) []shape {
 			// decoys sharing the trailing bytes of the rune's encoding (indexRuneCase -> IndexString hand-off)
 			shape{fmt.Sprintf("rune-decoys-%d", n), append(rep("丗", n/3), "世"...), []byte("世"), '世', 0x96},
 			shape{fmt.Sprintf("kelvin-%d", n), append(rep("k", n), "K"...), rep("K", 3), 'K', 'K'},
+			// decoys sharing the LAST byte of the rune's encoding: false positives of the last-byte search,
+			// drives indexRuneCase over its cut-over into bytealg.IndexString(s, string(r))
+			shape{fmt.Sprintf("last-byte-decoys2-%d", n), append(rep("Џ", n/2), "я"...), []byte("Я"), 'я', 0x8f},
+			shape{fmt.Sprintf("last-byte-decoys3-%d", n), append(rep("世", n/3), "乖"...), []byte("乖"), '乖', 0x96},
+			shape{fmt.Sprintf("last-byte-decoys4-%d", n), append(rep("\U0001F600", n/4), "\U0001F640"...), []byte("\U0001F640"), 0x1F640, 0x80},
 		)
 	}
 	// needles longer than 32 and 64 bytes, multi-kilobyte needles
